@@ -250,6 +250,12 @@ func (k Keeper) AddDisputeRound(ctx sdk.Context, sender sdk.AccAddress, dispute 
 		roundFee = dispute.SlashAmount
 	}
 
+	// every round adds its fee to the burn amount; a burn amount above the slash amount leaves the settlement with
+	// negative refunds and, for a reporter who wins, a negative amount to return (which panics in the begin blocker)
+	if dispute.BurnAmount.Add(roundFee).GT(dispute.SlashAmount) {
+		return fmt.Errorf("can't start a new round for this dispute %d; the round fees would exceed the slash amount", dispute.DisputeId)
+	}
+
 	if msg.Fee.Amount.LT(roundFee) {
 		return fmt.Errorf("fee amount is less than amount required")
 	} else {
